@@ -746,6 +746,13 @@ class StructMeta(type):
         clsobj = super().__new__(cls, name, bases, dict(cls_dict))
         _check_for_final_violations(clsobj.mro())
         clsobj._fields = fields
+        # a field with a default value is, by definition, optional - also when the field is inherited
+        fields_incl_inherited = _get_all_fields_by_name(clsobj)
+        cls_dict[REQUIRED_FIELDS] = [
+            r
+            for r in cls_dict[REQUIRED_FIELDS]
+            if getattr(fields_incl_inherited.get(r), "_default", None) is None
+        ]
 
         if hasattr(clsobj, "__annotations__"):
             for key, val in _get_all_fields_by_name(clsobj).items():
